@@ -102,7 +102,8 @@ def match_schemas(w_schema, r_schema, named_schemas):
         schema = _match_union_branch(w_schema, r_schema, named_schemas)
         if schema is None:
             raise SchemaResolutionError(error_msg)
-        return schema
+        # Resolve against the chosen branch, which may only name its type
+        return match_schemas(w_schema, schema, named_schemas)
     else:
         # Check for dicts as primitive types are just strings
         if isinstance(w_schema, dict):
@@ -683,11 +684,17 @@ def read_data(
         else:
             return data
     else:
+        if isinstance(reader_schema, dict):
+            # The reader defines the type at this very place (e.g. as the
+            # branch of a union) instead of referring to it by name
+            reader_definition = reader_schema
+        else:
+            reader_definition = named_schemas["reader"].get(reader_schema)
         return read_data(
             decoder,
             named_schemas["writer"][record_type],
             named_schemas,
-            named_schemas["reader"].get(reader_schema),
+            reader_definition,
             options,
         )
 
